@@ -92,8 +92,28 @@ func main() {
 		}
 		if *tier == "thorough" && h.Thorough != nil {
 			// overlay thorough bounds
-			b, _ := json.Marshal(h.Thorough)
-			json.Unmarshal(b, h)
+			t := h.Thorough
+			for k, v := range t.Params {
+				if h.Params == nil {
+					h.Params = map[string]uint64{}
+				}
+				h.Params[k] = v
+			}
+			if t.MaxPaths > 0 {
+				h.MaxPaths = t.MaxPaths
+			}
+			if t.TimeCapS > 0 {
+				h.TimeCapS = t.TimeCapS
+			}
+			if t.Unroll > 0 {
+				h.Unroll = t.Unroll
+			}
+			if t.BufMax > 0 {
+				h.BufMax = t.BufMax
+			}
+			if t.MaxSteps > 0 {
+				h.MaxSteps = t.MaxSteps
+			}
 		}
 		h.SharedWrites = true
 		sel = append(sel, h)
